@@ -109,6 +109,10 @@ type Case struct {
 	// Types: event type (index into evTypes) used at nesting depth d is
 	// Types[d % len]; empty = one type for everything.
 	Types []int `json:"types,omitempty"`
+	// Retry: after a Shutdown that returned its context's error and after the
+	// outstanding work has finished, the same number of events is published
+	// again and Shutdown is called a second time with a background context.
+	Retry bool `json:"retry,omitempty"`
 }
 
 type closeStore struct {
@@ -424,6 +428,41 @@ func bubble(c *Case, o *vkit.Outcome) {
 		}
 		if completed.Load() != exp {
 			o.Failf("", "after quiescence %d of %d invocations completed", completed.Load(), exp)
+		}
+		// a second Shutdown, after new work has been published
+		ctxErr := err != nil && (errors.Is(err, context.Canceled) || errors.Is(err, context.DeadlineExceeded))
+		if c.Retry && ctxErr && len(o.Viol) == 0 && c.Pubs > 0 {
+			onces := 0
+			for _, h := range c.Handlers {
+				if h.Once {
+					onces++
+				}
+			}
+			exp2 := exp + exp - int32(onces) // the Once handlers are gone, everything else runs again
+			for p := 0; p < c.Pubs; p++ {
+				c.typeAt(0).pub(bus, Ev{ID: 5000 + p})
+			}
+			err2 := bus.Shutdown(context.Background())
+			got := completed.Load()
+			if got != exp2 {
+				o.Failf("", "second Shutdown (after a first one that returned %v, new publishes in between) returned %v with %d of %d invocations completed", err, err2, got, exp2)
+			}
+			if store != nil && !c.NoCloser {
+				if n := store.closes.Load(); n != 1 {
+					o.Failf("", "second Shutdown returned %v and Close was called %d times in total, expected once", err2, n)
+				}
+				if v := closedAtCompleted.Load(); v != exp2 {
+					o.Failf("", "the second Shutdown closed the store when only %d of %d invocations had completed", v, exp2)
+				}
+				if c.CloseErr != (err2 != nil) {
+					o.Failf("", "second Shutdown returned %v (close failure injected: %v)", err2, c.CloseErr)
+				}
+			} else if err2 != nil {
+				o.Failf("", "second Shutdown with a background context returned %v", err2)
+			}
+			bus.Wait()
+			synctest.Wait()
+			o.Class("shutdown_retried_after_a_context_error_with_new_work")
 		}
 	}
 	if c.SyncToo && int(syncCalls.Load()) < c.Pubs {
